@@ -209,6 +209,35 @@ class En:
         return "En(%s,%s,%r)" % (self.name, self.disc, self.variants)
 
 
+class Seq:
+    """a finite sequence (slice, Vec, map entries, iterator) of concrete length; items are (guard term, value)"""
+    __slots__ = ("items",)
+
+    def __init__(self, items):
+        self.items = [(g, v) for g, v in items]
+
+    @staticmethod
+    def of(values):
+        return Seq([("true", v) for v in values])
+
+    def plain(self):
+        return all(g == "true" for g, _ in self.items)
+
+    def __repr__(self):
+        return "Seq(%r)" % (self.items,)
+
+
+class Clo:
+    """a closure value: the source span that identifies its body function and the captured values (in order)"""
+    __slots__ = ("span", "env")
+
+    def __init__(self, span, env):
+        self.span, self.env = span, env
+
+    def __repr__(self):
+        return "Clo(%s,%r)" % (self.span, self.env)
+
+
 class Opaque:
     """a value we carry around but cannot inspect (closure environments, zero-sized things)"""
     __slots__ = ("what",)
@@ -218,17 +247,26 @@ class Opaque:
 
 
 ENUM_VARIANTS = {
+    "Found": {"Zero": 0, "One": 1, "More": 2},
+    "ControlFlow": {"Continue": 0, "Break": 1},
     "Option": {"None": 0, "Some": 1},
     "Result": {"Ok": 0, "Err": 1},
     "Ordering": {"Less": -1, "Equal": 0, "Greater": 1},
 }
 
 
+class Bot:
+    """value read on an infeasible path (payload of an enum variant that was never constructed): absorbs in merges"""
+
+    def __repr__(self):
+        return "Bot"
+
+
 def merge(c, a, b):
     """ite over structured values"""
-    if a is None:
+    if a is None or isinstance(a, Bot):
         return b
-    if b is None:
+    if b is None or isinstance(b, Bot):
         return a
     if isinstance(a, V) and isinstance(b, V):
         if a.ty != b.ty:
@@ -249,6 +287,12 @@ def merge(c, a, b):
         return En(a.name, ite(c, a.disc, b.disc), vs)
     if isinstance(a, Opaque) and isinstance(b, Opaque):
         return a
+    if isinstance(a, Seq) and isinstance(b, Seq):
+        if len(a.items) == len(b.items):
+            return Seq([(ite(c, ga, gb), merge(c, va, vb)) for (ga, va), (gb, vb) in zip(a.items, b.items)])
+        return Opaque("merged sequences of different lengths")
+    if isinstance(a, Opaque) or isinstance(b, Opaque):
+        return Opaque("merged with opaque")
     raise NotTranslatable("merge of %r and %r" % (a, b))
 
 
@@ -270,6 +314,8 @@ class Enc:
     def sort(self, ty):
         if ty == "bool":
             return "Bool"
+        if ty == "str":
+            return "Int"
         if ty == "f64":
             return "(_ FloatingPoint 11 53)" if self.mode == "bv" else "Real"
         if ty in INT_W:
@@ -520,7 +566,10 @@ class Translator:
             val = {"MAX": 1.7976931348623157e308, "MIN": -1.7976931348623157e308, "INFINITY": float("inf"),
                    "NEG_INFINITY": float("-inf"), "NAN": float("nan"), "EPSILON": 2.220446049250313e-16}[m.group(1)]
             return V("f64", e.f_const(val))
-        if c.startswith("ZeroSized") or c.startswith("{closure") or c == "()":
+        mc = re.search(r"\{closure@([^}]+)\}", c)
+        if mc and (c.startswith("ZeroSized") or c.startswith("{closure")):
+            return Clo(mc.group(1), Tup([]))
+        if c.startswith("ZeroSized") or c == "()":
             return Opaque(c)
         m = re.fullmatch(r"(?:std|core)::option::Option::<.+>::None", c)
         if m:
@@ -563,10 +612,12 @@ class Translator:
                     if not isinstance(b, En):
                         raise NotTranslatable("downcast of non-enum " + p)
                     idx = self.variant_index(b.name, md.group(2))
-                    if idx not in b.variants:
-                        raise NotTranslatable("read of variant %s never constructed" % md.group(2))
+                    if idx not in b.variants or len(b.variants[idx]) <= k:
+                        return Bot()  # only reachable when the discriminant test above it is infeasible
                     return b.variants[idx][k]
                 b = self.place(st, base)
+                if isinstance(b, Bot):
+                    return b
                 if isinstance(b, Tup):
                     return b.items[k]
                 if isinstance(b, LazyEnv):
@@ -644,6 +695,11 @@ class Translator:
             if a.ty == "f64":
                 return V("f64", "(fp.neg %s)" % a.t if e.mode == "bv" else "(- %s)" % a.t)
             return V(a.ty, "(bvneg %s)" % a.t if e.mode == "bv" else "(- %s)" % a.t)
+        if m and m.group(1) in ("PtrMetadata", "Len"):
+            v = self.operand(st, m.group(2)) if m.group(2).startswith(("copy ", "move ")) else self.place(st, m.group(2))
+            if isinstance(v, Seq) and v.plain():
+                return V("usize", e.int_const("usize", len(v.items)))
+            raise NotTranslatable("length of %r" % (v,))
         if m and m.group(1) == "discriminant":
             v = self.place(st, m.group(2))
             if isinstance(v, En):
@@ -652,6 +708,13 @@ class Translator:
         if rv.startswith("&"):
             p = re.sub(r"^&(?:mut |raw const |raw mut )?", "", rv)
             return self.place(st, p)
+        mc = re.fullmatch(r"\{closure@([^}]+)\} \{ (.*) \}", rv)
+        if mc:
+            caps = []
+            for part in split_top(mc.group(2)):
+                nm, op = part.split(": ", 1)
+                caps.append(self.operand(st, op))
+            return Clo(mc.group(1), Tup(caps))
         if rv.startswith("(") and rv.endswith(")"):
             items = split_top(rv[1:-1])
             return Tup([self.operand(st, x) for x in items])
@@ -732,8 +795,26 @@ class Translator:
 
     # ---- callees
     def norm_callee(self, c):
+        """strip a trailing turbofish `::<...>` (bracket-matched from the end)"""
         c = c.strip()
-        c = re.sub(r"::<[^()]*>$", "", c)  # trailing turbofish
+        if c.endswith(">"):
+            depth = 0
+            i = len(c) - 1
+            while i >= 0:
+                ch = c[i]
+                if ch == ">" and not (i > 0 and c[i - 1] in "-="):
+                    depth += 1
+                elif ch == "<":
+                    depth -= 1
+                    if depth == 0:
+                        break
+                i -= 1
+            if i >= 2 and c[i - 2:i] == "::" and not c.startswith("<", 0, 1) or (i >= 2 and c[i - 2:i] == "::" and i > 2):
+                head = c[:i - 2]
+                if head and not head.endswith(">::") or True:
+                    # only strip when what precedes is a path segment name (method or function), not `impl ...`
+                    if re.search(r"[\w\]]$", head):
+                        return head
         return c
 
     def call(self, st, callee, args, fn, depth, dest_ty=None):
@@ -978,6 +1059,13 @@ class Translator:
             for (t, y, me), name in self.impl_index().items():
                 if t == trait and me == meth and y.split("::")[-1] == ty2:
                     return name
+        # inherent method `Type::<..>::method`
+        m = re.fullmatch(r"((?:\w+::)*\w+)(?:::<.*>)?::(\w+)", c)
+        if m:
+            base, meth = m.group(1).split("::")[-1], m.group(2)
+            for (t, y, me), name in self.impl_index().items():
+                if t == "" and me == meth and re.split(r"[<\s]", y.split("::")[-1])[0] == base:
+                    return name
         # same-module short names
         for k in self.fns:
             if k.endswith("::" + c) or k == c:
@@ -1079,9 +1167,23 @@ class Translator:
         m = re.fullmatch(r"drop\(.+\) -> \[return: (bb\d+), unwind.*\]", t)
         if m:
             return self.run_block(fn, m.group(1), st, depth, onpath)
-        m = re.fullmatch(r"(?:(.+?) = )?(.+?)\((.*)\) -> (?:\[return: (bb\d+), unwind.*\]|unwind.*)", t)
+        m = re.fullmatch(r"(.+\)) -> (?:\[return: (bb\d+), unwind.*\]|unwind.*)", t)
         if m:
-            dest, callee, args, nxt = m.group(1), m.group(2), m.group(3), m.group(4)
+            calltxt, nxt = m.group(1), m.group(2)
+            # split `dest = callee(args)` with bracket matching from the end (turbofish may contain parentheses)
+            depth, i = 0, len(calltxt) - 1
+            while i >= 0:
+                if calltxt[i] == ")":
+                    depth += 1
+                elif calltxt[i] == "(":
+                    depth -= 1
+                    if depth == 0:
+                        break
+                i -= 1
+            args = calltxt[i + 1:-1]
+            head = calltxt[:i]
+            md = re.match(r"^(_\d+|\(.+?\)) = (.+)$", head)
+            dest, callee = (md.group(1), md.group(2)) if md else (None, head)
             if callee.startswith(("std::rt::begin_panic", "core::panicking::", "std::panicking::")) or nxt is None:
                 return None, "true"
             saved = self._pending_panic
